@@ -3,3 +3,6 @@ import PnVerif.Base.FVLemmas
 import PnVerif.Spec.ConvSpec
 import PnVerif.Gen.Ncx
 import PnVerif.Gen.NcxProofs
+import PnVerif.Gen.NcxTable
+import PnVerif.Model.ConvLoop
+import PnVerif.Props.C09
